@@ -265,7 +265,20 @@ def run_case(case):
                         ["EXEC", enc_obs(m.simulator.simulator_time), seq])
                     rec.hooks.pop("WARMUP", None)
                 elif cmd == "badinit":
-                    h.sim.initialize(None, h.make_replication())
+                    # a rejected argument: no model at all, or (by the hash of the sequence) a model object whose
+                    # constructor never ran the base class constructor
+                    bad_model = None
+                    if (hsh >> 7) % 2:
+                        from pydsol.core.model import DSOLModel as _DM
+
+                        class _Unfinished(_DM):
+                            def __init__(self, simulator):
+                                pass
+
+                            def construct_model(self):
+                                pass
+                        bad_model = _Unfinished(h.sim)
+                    h.sim.initialize(bad_model, h.make_replication())
                 elif cmd == "cleanup":
                     h.sim.cleanup()
                     rec.subscribe(h.sim)
@@ -392,7 +405,7 @@ def overlap_schedules(tier):
     rapid = [{"overlap": True, "rapid": 4 if tier == "quick" else 12, "starter": st_} for st_ in ("start", "rut")]
     # commands issued re-entrantly from a listener of the command's OWN notification (on the commanding thread)
     for outer, notes in (("start", ("START_REPLICATION", "STARTING")), ("rut", ("START_REPLICATION", "STARTING")),
-                         ("start-after-pause", ("STARTING",)), ("step", ("START_REPLICATION", "START")),
+                         ("start-after-pause", ("STARTING",)), ("step", ("START_REPLICATION", "START", "STOP")),
                          ("stop", ("STOPPING",))):
         for note in notes:
             for inner in OCMDS:
